@@ -771,19 +771,19 @@ def run(ctx):
         done += 1
     ctx.count("exhaustive:gene-pairs", done)
 
+    rng = ctx.rng("clusters")
+    for _ in ctx.cases(ctx.quota(1000, 160000)):
+        _drive(ctx, G.gen_cluster(rng, alphabet_all))
     rng = ctx.rng("genes")
-    for _ in ctx.cases(ctx.quota(9000, 1600000)):
+    for _ in ctx.cases(ctx.quota(7000, 1200000)):
         case = {"kind": "gene", "tokens": G.gen_word(rng, alphabet_all)}
         if rng.random() < 0.2:
             case["order"] = list(range(len(case["tokens"])))
             rng.shuffle(case["order"])
         _drive(ctx, case)
     rng = ctx.rng("pairs")
-    for _ in ctx.cases(ctx.quota(6000, 1000000)):
+    for _ in ctx.cases(ctx.quota(5000, 800000)):
         _drive(ctx, G.gen_pair(rng, alphabet_all))
-    rng = ctx.rng("clusters")
-    for _ in ctx.cases(ctx.quota(1200, 200000)):
-        _drive(ctx, G.gen_cluster(rng, alphabet_all))
     ctx.extra["exhaustive_part"] = ("gene words and gene pairs as in RULE, share of this process: index mod "
                                     f"{ctx.nworkers}")
 
